@@ -169,6 +169,10 @@ def items(tier, seed):
         for pat in pats: out.append((i, p, pat))
     return out
 
+def _lru_worker(i):
+    from checks import c03_lru
+    return dict(out=list(c03_lru.obligations()) if i == 0 else [])
+
 def main(argv=None):
     args = harness.parse_args(PID, argv)
     if args.replay:
@@ -220,7 +224,11 @@ def main(argv=None):
     if not args.only or args.only == 'lru':
         from checks import c03_lru
         hits = 0
-        for o in c03_lru.obligations():
+        lru_out = []
+        for res in harness.pmap(_lru_worker, [0, 1], 2, chunksize=1, case_timeout=240):      # in a freshly forked worker with a wall-clock budget (the main process has a large z3 state by now)
+            if isinstance(res, dict) and 'harness_error' in res: run.unconfirmed('lru_cache obligations', res['harness_error'][:300])
+            elif isinstance(res, dict): lru_out += res['out']
+        for o in lru_out:
             run.case(o['label'], o['hits'] > 0); run.paths += o['paths']; hits += o['hits']
             run.queries['exact_unsat'] += o['unsat']; run.queries['unknown'] += o['unknown']; run.queries['sat'] += len(o['sat'])
             if o['errors'] or not o['exhaustive']: run.unconfirmed(o['label'], f'paths not exhaustive or failed: {o["errors"][:2]}')
@@ -229,7 +237,7 @@ def main(argv=None):
                 ok, detail = c03_lru.replay(views)
                 if ok: run.violation('lru:' + o['label'], f'types.lru_cache serves a stale value: {detail}'[:600], dict(kind='lru', views=views, program=None, pattern=None, arguments=None)); break
                 else: run.unconfirmed(o['label'], f'solver model did not reproduce ({detail})')
-        if hits == 0: run.harness_error('lru_cache obligations: no path with a cache hit was explored (vacuous)')
+        if hits == 0 and lru_out: run.harness_error('lru_cache obligations: no path with a cache hit was explored (vacuous)')
         run.stubs.append('nutils.types.numpy -> proxy whose ndarray is a symbolic array-view class (lru_cache obligations); memory contents are an uninterpreted function')
         run.bounds['lru_cache_views'] = 'two views, 1 or 2 axes of length 1..3, strides multiples of 8 in [-32,32], pointer inside a 512-byte buffer, element types <f8/<i8'
     return run.finish(dict(programs=run.cases, disagreements_checked=run.queries['sat'] + len(run.violations)))
